@@ -8,6 +8,7 @@ mod alpha;
 mod c03;
 mod c06;
 mod rt;
+mod c07;
 mod c08;
 mod gram;
 mod c10;
@@ -60,6 +61,7 @@ fn main() {
         "c06" => c06::run_ff(&a),
         "c05" => c06::run_dec(&a),
         "c03" => c03::run(&a),
+        "c07" => c07::run(&a),
         "c08" => c08::run(&a),
         "c10" => c10::run(&a),
         "c11" => c11::run(&a),
